@@ -469,6 +469,10 @@ fn known_kinds(path: Option<&str>) -> Vec<(String, String)> {
 
 fn batch(args: &[String]) -> i32 {
     let t0 = Instant::now();
+    if !subjects::declared_tables_fit() {
+        eprintln!("HARNESS ERROR: the synthetic types do not have the number of units their declarations say");
+        return 2;
+    }
     let seed: u64 = arg(args, "--seed").and_then(|s| s.parse().ok()).unwrap_or(0);
     let src = arg(args, "--source").unwrap_or_else(|| "rnd".into());
     let mut runs: u64 = arg(args, "--runs").and_then(|s| s.parse().ok()).unwrap_or(1000);
